@@ -89,10 +89,41 @@ def common_buckets(ctx, run, meta):
     ctx.bucket("model_x_k", f"{run.kind}/k={len(run.pri)}")
     ctx.bucket("ties", f"{run.kind}/{meta.get('ties')}")
     ctx.bucket("regime", meta.get("regime"))
-    ctx.bucket("gamma", c["gamma"])
+    ctx.bucket("gamma", c["gamma"].split(":")[0])
     ctx.bucket("scale_decade", scale_decade(c))
     ctx.bucket("encoding", meta.get("enc"))
     ctx.bucket("kappa", c["kappa"])
     ctx.bucket("tau_eff", "zero" if run.tau == 0 else ("small" if run.tau < 0.05 * c["beta"] else "large"))
     ctx.bucket("limit_sigma", f"model={c['limit_sigma']}/call={(run.case.get('call') or {}).get('limit_sigma')}")
     ctx.bucket("rating_ids", run.case.get("ids", "unique"))
+
+
+def aim_at_floor_window(case, rng):
+    """Workload shaping (not an oracle): choose a constant gamma so that one player's variance factor
+    1 - share*delta lands strictly inside (0, kappa), the window just above the kappa floor that random games almost
+    never hit.  The factor is linear in a constant gamma, so one exploratory run of the real code with gamma = 1 gives
+    share*delta per slot; the returned case is then judged by the reference like any other."""
+    import math
+
+    c1 = dict(case, cfg=dict(case["cfg"], gamma="one"), call=dict(case.get("call") or {}, limit_sigma=False))
+    r = run_case(c1)
+    if r.res is None:
+        return None
+    kappa = r.cfg["kappa"]
+    cands = []
+    for tp, tr in zip(r.pri, r.res):
+        for (mu0, s0, _, _), (mu1, s1) in zip(tp, tr):
+            infl = s0 * s0 + r.tau * r.tau
+            if infl <= 0:
+                continue
+            f1 = (s1 * s1) / infl
+            if kappa * 1.001 < f1 < 1 - 1e-9:
+                cands.append(1 - f1)
+    if not cands:
+        return None
+    d = rng.choice(cands)
+    u = rng.uniform(0.05, 0.95)
+    g = (1 - kappa * u) / d
+    if not (0 < g < 1e12) or not math.isfinite(g):
+        return None
+    return dict(case, cfg=dict(case["cfg"], gamma=f"const:{g!r}"))
